@@ -212,7 +212,13 @@ def check(case):
         elif k == "pha":
             if w.v != (3, 4):
                 continue
-            outs, _ = drive({"s": p.s.request_post_handshake_auth()},
+            st_ = None
+            if len(op) > 1 and op[1]:
+                # a request that does not offer certificate compression
+                # (next to others that do)
+                st_ = sc.mk_settings(certificate_compression_receive=[])
+                w.labels.append("pha-without-compression")
+            outs, _ = drive({"s": p.s.request_post_handshake_auth(st_)},
                             p.link, on_stall="leave")
             if not outs["s"].ok:
                 return bad("pha-request-fails", repr(outs["s"]),
@@ -526,7 +532,7 @@ def op_strategy():
         st.tuples(st.just("ku"), side, st.booleans()),
         st.tuples(st.just("ku"), side, st.booleans()),
         st.tuples(st.just("p"), side, st.sampled_from([0, 0, 1, 7])),
-        st.tuples(st.just("pha")),
+        st.tuples(st.just("pha"), st.sampled_from([0, 0, 1])),
         st.tuples(st.just("hb"), side, st.sampled_from(
             [0, 1, 16, 300, 16365, 16364]),
             st.sampled_from([16, 16, 17, 100, 0, 15])),
@@ -572,6 +578,12 @@ def explicit(tier, seed):
                        ["w", "s", 4], ["r", "s"], ["r", "c"], ["r", "s"],
                        ["ku", "c", True], ["pha"], ["w", "c", 9], ["r", "s"],
                        ["r", "c"]]}
+    # several authentication requests outstanding, with and without the
+    # offer of certificate compression, in every order
+    for a, b in ((0, 1), (1, 0), (1, 1), (0, 0)):
+        yield {"v": "tls13", "ops": [["pha", a], ["pha", b], ["w", "c", 5],
+                                     ["r", "c"], ["r", "s"], ["w", "s", 6],
+                                     ["r", "c"], ["r", "s"]]}
     # both sides issue KeyUpdate(update_requested) before either reads
     yield {"v": "tls13", "ops": [["w", "c", 100], ["ku", "c", True],
                                  ["ku", "s", True], ["w", "s", 100],
